@@ -1003,3 +1003,36 @@ package flags
 //@   ensures[C13] r != nil ==> rankOf(r, name, hm) >= 1
 //@   ensures[C13] forall(j, 0, iterlen(Group.eachGroup, root), noBetterIn(iterelem(Group.eachGroup, root, j, 0), len(iterelem(Group.eachGroup, root, j, 0).options), name, hm, ite(r == nil, 0, rankOf(r, name, hm))))
 //@   assigns nothing
+
+// ===================================================================
+// ini.go: applying the entries
+// ===================================================================
+
+//@ assumed func (x *multiTag) Set(key string, value string)
+//@ assumed func (c *Command) groupByName(name string) (g *Group)
+//@   pure
+
+//@ func (i *IniParser) matchingGroups(name string) (r []*Group)
+//@   props C13 C14 C04
+//@   requires i != nil && i.parser != nil
+//@   loop 1 invariant len(ret) == idx_1 && forall(k, 0, idx_1, ret[k] == iterelem(Group.eachGroup, i.parser.Command.Group, k, 0))
+//@   ensures[C13] len(name) == 0 ==> len(r) == iterlen(Group.eachGroup, i.parser.Command.Group) && forall(k, 0, len(r), r[k] == iterelem(Group.eachGroup, i.parser.Command.Group, k, 0))
+//@   ensures[C13] len(name) != 0 && i.parser.Command.groupByName(name) != nil ==> len(r) == 1 && r[0] == i.parser.Command.groupByName(name)
+//@   ensures[C13,C14] len(name) != 0 && i.parser.Command.groupByName(name) == nil ==> len(r) == 0
+//@   assigns nothing
+
+//@ pure func allClearRef(p *Parser) bool = forall(k, 0, iterlen(Command.eachOption, p.Command), iterelem(Command.eachOption, p.Command, k, 2).clearReferenceBeforeSet)
+
+//@ func (i *IniParser) parse(ini *ini) (err error)
+//@   props C05 C13 C14 C04
+//@   requires i != nil && i.parser != nil && ini != nil
+//@   loop 1 invariant forall(k, 0, idx_1, iterelem(Command.eachOption, i.parser.Command, k, 2).clearReferenceBeforeSet)
+//@   loop 2 invariant !isnil(quotesLookup) && !isnil(iniDefaulted) && p == i.parser
+//@   loop 2 invariant[C05] idx_2 == 0 ==> allClearRef(i.parser)
+//@   loop 3 invariant !isnil(quotesLookup) && !isnil(iniDefaulted) && p == i.parser
+//@   loop 4 invariant !isnil(quotesLookup) && !isnil(iniDefaulted) && p == i.parser
+//@   loop 5 invariant true
+//@   at call Option.Set #1: opt != nil && (pval == nil) == (!opt.canArgument() && len(inival.Value) == 0) && (pval != nil && opt.value.Type().Kind() != reflect.Map ==> *pval == inival.Value)
+//@   at call Option.setDefault #1: opt != nil && (pval == nil) == (!opt.canArgument() && len(inival.Value) == 0) && (pval != nil && opt.value.Type().Kind() != reflect.Map ==> *pval == inival.Value)
+//@   ensures[C14] err != nil ==> isTyped(err, ErrUnknownGroup) || (is(err, *IniError) && as(err, *IniError) != nil && as(err, *IniError).File == ini.File)
+//@   ensures[C14] isTyped(err, ErrUnknownGroup) ==> p.Options&IgnoreUnknown == 0
